@@ -34,20 +34,21 @@ def job(info, cn):
     ctor_args = {'ObjectHeader': ', 0, 0', 'ObjectHeader2': ', 0, 0', 'VarObjectHeader': ', 0, 0'}.get(cn, '')
     src += 'void harness(void)\n{\n    struct %s y; struct AbstractFile is; int64_t g0;\n' % cn
     src += '    %s_ctor(&y%s);\n' % (cn, ctor_args)
-    src += '    __CPROVER_assume(is.g >= 0 && is.g <= is.fileSize && is.fileSize <= ((int64_t)1 << 40));\n    g0 = is.g; is.p = g0; vb_exc = 0;\n    { size_t cap; vb_alloc_cap = cap; }   /* allocation may fail above an arbitrary cap */\n'
+    src += '    __CPROVER_assume(is.g >= 0 && is.g <= is.fileSize && is.fileSize <= ((int64_t)1 << 40));\n    g0 = is.g; is.p = g0; is.hdr_end = 0; vb_exc = 0;\n    { size_t cap; vb_alloc_cap = cap; }   /* allocation may fail above an arbitrary cap */\n'
     src += '    %s(%s, &is);\n' % (fn, '&y' if not rd['self'] else '&y.' + rd['self'])
     blf_ok = '(is.rdstate & IOS_eofbit) != 0'
     if cn == 'FileStatistics': blf_ok = '((is.rdstate & IOS_eofbit) != 0 || y.signature != VBC_FileSignature)'
     src += '    __CPROVER_assert(vb_exc == 0 || vb_exc == VB_EXC_STD || (vb_exc == VB_EXC_BLF && %s), "C10/%s/read/R2-only-library-exception-at-eof-or-allocation-failure");\n' % (blf_ok, cn)
     src += '    __CPROVER_assert(is.g >= g0 && is.g <= is.fileSize, "C10/%s/read/R4-get-position-never-behind-object-start-nor-past-declared-end");\n' % cn
+    src += '    __CPROVER_assert(!is.hdr_end || vb_exc != 0 || is.rdstate != IOS_goodbit, "C08/%s/read/R6-an-object-cut-short-by-the-end-of-the-stream-never-ends-with-the-stream-good");\n' % cn
     src += '    __CPROVER_assert(0, "canary");\n'
-    canaries = ['harness.assertion.3']
+    canaries = ['harness.assertion.4']
     vecs = [l for l in info.leaves(cn) if l['kind'] == 'vec' and not info.derived('not_serialised', l['owner'], l['name'])]
     if cn == 'CanFdExtFrameData': vecs = []     # its container is read by the enclosing CanFd* classes, which know the object size
     for i, v in enumerate(vecs):
         # reachability: a decode that completes with a non-empty container must be possible
         src += '    __CPROVER_assert(!(vb_exc == 0 && y.%s.size > 1), "canary-payload");\n' % v['path']
-        canaries.append('harness.assertion.%d' % (4 + i))
+        canaries.append('harness.assertion.%d' % (5 + i))
     src += '}\n'
     labels = {'re:AbstractFile::read precondition': 'C10/%s/read/R1-every-stream-read-has-a-writable-destination-of-the-requested-size' % cn,
               're:stream invariant': 'C10/%s/read/R4-get-position-between-object-start-and-declared-end-after-every-step' % cn,
